@@ -206,7 +206,7 @@ func (p *gcpPicker) getLeastBusySubConnRef() (*subConnRef, error) {
 	}
 
 	// If the least busy connection still has capacity, use it
-	if minStreamsCnt < int32(p.gb.cfg.GetChannelPool().GetMaxConcurrentStreamsLowWatermark()) {
+	if int64(minStreamsCnt) < int64(p.gb.cfg.GetChannelPool().GetMaxConcurrentStreamsLowWatermark()) {
 		return minScRef, nil
 	}
 
